@@ -184,6 +184,8 @@ def generate(rng, index, tier):
             if kind == 'status' and rng.random() < 0.5:
                 # callable matcher followed by a plain one
                 req['matcher'] = 'callable_then_privileged'
+        if form in ('wait', 'future') and kind == 'status' and 'matcher' not in req and rng.random() < 0.4:
+            req['matcher'] = 'falsy_values'
         reqs.append(req)
     msgs = []
     val = 1
@@ -350,6 +352,16 @@ def corpus(tier):
                    'at': 0.0, 'matcher': 'callable_then_privileged'}],
             msgs=[{'arrive': 0.3, 'src': 'server', 'kind': 'status', 'arg': 'u1', 'val': val}],
             cancels=[{'req': 0, 'on_msg': None, 'plus_iter': 0, 'at': 3.0}]))
+    # 5b. expected field values that are falsy (status 0, privileged False): near misses first, then the answer
+    for form in ('wait', 'future'):
+        out.append(dict(
+            base,
+            reqs=[{'id': 0, 'form': form, 'src': 'server', 'kind': 'status', 'arg': 'u1',
+                   'timeout': None if form == 'future' else 5.0, 'at': 0.0, 'matcher': 'falsy_values'}],
+            msgs=[{'arrive': 0.3, 'src': 'server', 'kind': 'status', 'arg': 'u1', 'val': 1},
+                  {'arrive': 0.6, 'src': 'server', 'kind': 'status', 'arg': 'u1', 'val': 3},
+                  {'arrive': 0.9, 'src': 'server', 'kind': 'status', 'arg': 'u1', 'val': 0}],
+            cancels=[{'req': 0, 'on_msg': None, 'plus_iter': 0, 'at': 6.0}] if form == 'future' else []))
     # 6. right message from the other peer
     out.append(dict(
         base,
@@ -410,6 +422,9 @@ def spec_matches(req, msg_rec):
             return False
         if req.get('matcher') == 'callable_then_privileged':
             return bool((msg_rec['val'] // 3) % 2)
+        if req.get('matcher') == 'falsy_values':
+            # expected values that are falsy in Python: status 0 (offline), privileged False
+            return msg_rec['val'] % 3 == 0 and not bool((msg_rec['val'] // 3) % 2)
         return True
     if kind == 'dircontents' and req['form'] == 'execute':
         return msg_rec['arg'] == req['arg'] and msg_rec.get('ticket_req') == req['id']
@@ -532,6 +547,8 @@ def _run(world: World, plan):
             fields['directory'] = arg
         if req.get('matcher') == 'callable_then_privileged':
             fields = {'username': (lambda v, a=arg: v == a), 'privileged': True}
+        if req.get('matcher') == 'falsy_values':
+            fields = {'username': arg, 'status': 0, 'privileged': False}
         if form == 'wait':
             if src == 'server':
                 async def do():
